@@ -132,7 +132,16 @@ class SymEx:
             self.claims.append(Claim(label, 'held'))
             return True
         if r == 'unknown':
-            self.claims.append(Claim(label, 'inconclusive', 'solver unknown'))
+            # counterexample search by partial instantiation: fix a pseudo-random subset of
+            # the inputs to concrete values of their domains (turning the nonlinear query
+            # into a mostly linear one).  Only ever used to *find* a model; unknown stays
+            # inconclusive, and every model is replayed anyway.
+            m = self._guided(neg if strong is None else strong) or \
+                (self._guided(neg) if strong is not None else None)
+            if m is None:
+                self.claims.append(Claim(label, 'inconclusive', 'solver unknown'))
+                return False
+            self.claims.append(Claim(label, 'cand', detail, self._model(m)))
             return False
         if strong is not None:
             r2, m2 = c._check(strong)
@@ -140,6 +149,32 @@ class SymEx:
                 m = m2
         self.claims.append(Claim(label, 'cand', detail, self._model(m)))
         return False
+
+    def _guided(self, neg, tries=6):
+        import random
+        c = self.c
+        rng = random.Random(1234 + c.ex.seed)
+        names = [n for n, (k, v, lo, hi) in c.inputs.items() if k == 'real']
+        old_to = c.ex.query_timeout_ms
+        for t in range(tries):
+            frac = 0.5 if t < tries // 2 else 0.85
+            eqs = []
+            for n in names:
+                if rng.random() < frac:
+                    k, v, lo, hi = c.inputs[n]
+                    lo_ = -1.0 if lo is None else float(lo)
+                    hi_ = lo_ + 2.0 if hi is None else float(hi)
+                    val = rng.choice([lo_, hi_, (lo_ + hi_) / 2, rng.uniform(lo_, hi_),
+                                      round(rng.uniform(lo_, hi_), 1)])
+                    eqs.append(v == P._rv(P._fr(val)))
+            c.solver.set('timeout', 5000)
+            try:
+                r, m = c._check(neg, *eqs)
+            finally:
+                c.solver.set('timeout', old_to)
+            if r == 'sat':
+                return m
+        return None
 
     def _model(self, m):
         out = {}
@@ -151,7 +186,11 @@ class SymEx:
                 out[name] = val.as_long()
             else:
                 out[name] = bool(z3.is_true(val))
-        return {'inputs': out, 'choices': list(self.choices)}
+        uf = {}
+        for name, tab in getattr(self.c, 'ufuns', {}).items():
+            uf[name] = [(_z3_to_float(m.eval(a, model_completion=True)),
+                         _z3_to_float(m.eval(v, model_completion=True))) for a, v in tab]
+        return {'inputs': out, 'choices': list(self.choices), 'uf': uf}
 
     def true(self, cond, label):
         conds = _flat(cond)
@@ -284,6 +323,7 @@ class ConEx:
     def __init__(self, model, case, twin=None, rtol=1e-7, atol_scale=10.0):
         self.inputs = dict(model.get('inputs', {}))
         self._choices = list(model.get('choices', []))
+        self.uf_tables = {k: [tuple(x) for x in v] for k, v in model.get('uf', {}).items()}
         self._ci = 0
         self.case = case or {}
         self.twin = twin
@@ -547,7 +587,8 @@ def run_case(h, case, twin, tier, seed, budget):
             if out['sample_model'] is None:
                 out['sample_model'] = res['witness']
             rep = concrete_run(h, res['witness'], case, twin)
-            sym_held = {cl.label for cl in res['claims'] if cl.verdict == 'held'}
+            sym_held = {cl.label for cl in res['claims'] if cl.verdict == 'held'} - \
+                {cl.label for cl in res['claims'] if cl.verdict != 'held'}
             bad = [(l, d) for l, d in rep.failed if l in sym_held]
             if rep.error is not None and rep.error != 'assumption':
                 out['witness_bad'].append({'error': rep.error, 'model': res['witness'],
